@@ -49,7 +49,7 @@ fn gen_stream_table(rng: &mut Rng, id_sorted_only: bool, filler_base: i64) -> Va
     json!({"parts": [steps], "sorted": !id_sorted_only, "unbounded": true})
 }
 
-const SHAPES: &[&str] = &["filter", "union_all", "limit", "window", "ordered_agg", "shj", "sort_rejected", "hash_agg_unordered"];
+const SHAPES: &[&str] = &["filter", "union_all", "limit", "window", "window_reversed", "ordered_agg", "shj", "sort_rejected", "hash_agg_unordered"];
 
 impl Scenario for Unbounded {
     fn name(&self) -> &'static str {
@@ -63,7 +63,7 @@ impl Scenario for Unbounded {
         let mut env = EnvSpec::generate(rng, false);
         env["batch_size"] = json!(*rng.pick(&[1u64, 2, 4, 8]));
         let mut a = gen_stream_table(rng, unsorted, 1000);
-        if shape == "window" {
+        if shape == "window" || shape == "window_reversed" {
             a["sorted"] = json!(false);
             a["order"] = json!("id");
         }
@@ -220,6 +220,14 @@ async fn run(case: Value) -> Outcome {
             };
             ("SELECT a.id, b.id FROM a JOIN b ON a.k = b.k".to_string(), j(&a, &b), j(&a_early, &b_early), false)
         }
+        // running sum against the input order: every value depends on all later rows, so it can only
+        // be answered at end of input and must be rejected
+        "window_reversed" => (
+            "SELECT id, sum(v) OVER (ORDER BY id DESC ROWS BETWEEN UNBOUNDED PRECEDING AND CURRENT ROW) FROM a".to_string(),
+            vec![],
+            vec![],
+            false,
+        ),
         _ => ("SELECT id FROM a ORDER BY v".to_string(), vec![], vec![], false),
     };
 
@@ -237,6 +245,9 @@ async fn run(case: Value) -> Outcome {
             return Outcome::Pass;
         }
     };
+    if shape == "window_reversed" {
+        return violation("blocking-plan-accepted", format!("`{sql}` over an input ordered by id ASC was accepted although every frame reaches to the end of the unbounded input"));
+    }
     if shape == "sort_rejected" {
         return violation("blocking-plan-accepted", format!("`{sql}` over an unbounded input was accepted although it can only answer at end of input"));
     }
